@@ -613,3 +613,43 @@ def optional_keyword_rule(m, rid):
                        m.loc(f, n))
     r.notes.append("keyword-prefix tests inspected: %d" % n_kw)
     return r
+
+
+# =================================================================================================
+# alternative delimiter kinds accepted by a matcher are recorded
+# =================================================================================================
+def alt_delimiter_rule(m, rid, module_filter=None):
+    r = RuleResult(rid, "where a matcher accepts text enclosed in one of several delimiter pairs, the pair found is recorded in the result "
+                        "(otherwise the printer re-delimits the text: `#include <f>` becomes `#include \"f\"`, `\"it's\"` becomes `'it's'`)")
+    r.floor = 1
+    for (path, q), f in sorted(m.funcs.items()):
+        if "/tests/" in path or "/two/" not in path or not q.endswith(".match"):
+            continue
+        if module_filter and module_filter not in path:
+            continue
+        pairs = {}
+        for n in A.body_nodes(f.node):
+            if isinstance(n, ast.BoolOp) and isinstance(n.op, ast.And) and len(n.values) == 2:
+                a, b = n.values
+                if all(isinstance(x, ast.Compare) and len(x.ops) == 1 and isinstance(x.ops[0], ast.Eq)
+                       and isinstance(A.const(x.comparators[0], None), str) for x in (a, b)):
+                    la, lb = A.text(a.left), A.text(b.left)
+                    if la.endswith("[0]") and lb.endswith("[-1]") and la[:-3] == lb[:-4]:
+                        pairs.setdefault(la[:-3], set()).add((A.const(a.comparators[0]), A.const(b.comparators[0])))
+        for base, ps in sorted(pairs.items()):
+            if len(ps) < 2:
+                continue
+            r.instances += 1
+            # recorded when some return value mentions base[0] / base itself (not only base[1:-1])
+            rec = False
+            for ret in A.returns(f.node):
+                if ret.value is None:
+                    continue
+                for x in ast.walk(ret.value):
+                    if A.text(x) in ("%s[0]" % base, "%s[-1]" % base, base):
+                        rec = True
+            r.ob(rec, "%s: delimiter pairs %s of `%s` recorded" % (q, sorted(ps), base))
+            if not rec:
+                r.fail("%s|alt-delimiters|%s" % (q, base), "%s accepts `%s` enclosed in any of %s and keeps only the inside: the printer cannot "
+                       "reproduce the delimiters that were written" % (q, base, sorted(ps)), m.loc(f))
+    return r
